@@ -73,6 +73,7 @@ type sys struct {
 	timers  []*ctl.Actor
 	refs    []*keyed.KeyedRef[uint64, uint64]
 	refKeys []uint64
+	refLive []bool // the reference is still counted in rc.refs (statistics and generation only)
 	rels    []*ctl.Actor
 	ctorN   map[uint64]uint64
 	cbmu    sync.Mutex
@@ -154,8 +155,16 @@ func newSys(w *hist.W, cfg []uint64) *sys {
 		case kTimer:
 			return site == 2 || site == 3
 		case kRel:
+			if site == 5 {
+				// Keyed.RemoveKey reached from a Release call.  The unchanged code gets here inside the rc.mtx section
+				// (never park a goroutine that holds a sync.Mutex); a Release that has already let go of rc.mtx is
+				// parked: the window between the reference bookkeeping and the removal is a schedule point.
+				return s.variant && s.rc.VerifRcMtxFree()
+			}
 			return site == 4
 		}
+		// API actors (Keyed.RemoveKey, KeyedRefCount.RemoveKey) do not park at site 5: for the plain call it is the
+		// same as the call not having started, and KeyedRefCount.RemoveKey holds rc.mtx there
 		return false
 	}
 	s.c.Adopt = func(pkg string, site int, obj any) *ctl.Actor {
@@ -304,9 +313,12 @@ func (s *sys) obs(rets []uint64) []uint64 {
 	}
 	o = append(o, uint64(len(s.rels)))
 	for _, a := range s.rels {
-		if a.Done() {
+		switch {
+		case a.Done():
 			o = append(o, 2)
-		} else {
+		case a.Parked() && a.Site() == 5:
+			o = append(o, 3)
+		default:
 			o = append(o, 1)
 		}
 	}
@@ -446,7 +458,14 @@ func (s *sys) exec(ev []uint64) (obs []uint64, ok bool) {
 		s.api(func() { ref, d, ex = s.rc.AddKeyRef(ev[1]) })
 		s.refs = append(s.refs, ref)
 		s.refKeys = append(s.refKeys, ev[1])
+		s.refLive = append(s.refLive, true)
 		rets = []uint64{d, b2u(ex)}
+		for _, a := range s.rels {
+			if !a.Done() && a.Parked() && a.Site() == 5 && s.refKey(a) == ev[1] {
+				s.w.Count("obs.addkeyref_while_release_parked_before_removekey", 1)
+				break
+			}
+		}
 	case 11:
 		if !s.variant || len(ev) != 2 || int(ev[1]) >= len(s.refs) {
 			return nil, false
@@ -464,11 +483,20 @@ func (s *sys) exec(ev []uint64) (obs []uint64, ok bool) {
 			return nil, false
 		}
 		a := s.rels[ev[1]]
-		if a.Done() || !a.Parked() {
+		if a.Done() || !a.Parked() || a.Site() != 4 {
 			return nil, false
 		}
 		s.lastReq[s.refKey(a)] = s.clockMs
+		if f := a.Data.(uint64); s.refLive[f] {
+			s.refLive[f] = false
+			if s.liveRefs(s.refKeys[f]) == 0 {
+				s.w.Count("obs.release_of_last_reference", 1)
+			}
+		}
 		s.c.Step(a)
+		if a.Parked() && a.Site() == 5 {
+			s.w.Count("obs.release_parked_before_removekey_outside_rc_mtx", 1)
+		}
 	case 13:
 		if !s.variant || len(ev) != 2 {
 			return nil, false
@@ -477,6 +505,11 @@ func (s *sys) exec(ev []uint64) (obs []uint64, ok bool) {
 		s.api(func() { ex = s.rc.RemoveKey(ev[1]) })
 		rets = []uint64{b2u(ex)}
 		s.lastReq[ev[1]] = s.clockMs
+		for f, k := range s.refKeys {
+			if k == ev[1] {
+				s.refLive[f] = false
+			}
+		}
 	case 14:
 		if len(ev) != 3 || int(ev[1]) >= len(s.insts) {
 			return nil, false
@@ -533,6 +566,18 @@ func (s *sys) exec(ev []uint64) (obs []uint64, ok bool) {
 			}
 		})
 		rets = encKeys(ks)
+	case 20:
+		// a Release call that left its rc.mtx section and is parked before Keyed.RemoveKey (site 5) goes on.  The
+		// unchanged code never parks there, the model has no such event.
+		if !s.variant || len(ev) != 2 || int(ev[1]) >= len(s.rels) {
+			return nil, false
+		}
+		a := s.rels[ev[1]]
+		if a.Done() || !a.Parked() || a.Site() != 5 {
+			return nil, false
+		}
+		s.lastReq[s.refKey(a)] = s.clockMs
+		s.c.Step(a)
 	default:
 		return nil, false
 	}
@@ -540,6 +585,16 @@ func (s *sys) exec(ev []uint64) (obs []uint64, ok bool) {
 }
 
 func (s *sys) refKey(a *ctl.Actor) uint64 { return s.refKeys[a.Data.(uint64)] }
+
+func (s *sys) liveRefs(k uint64) int {
+	n := 0
+	for f, live := range s.refLive {
+		if live && s.refKeys[f] == k {
+			n++
+		}
+	}
+	return n
+}
 
 func (s *sys) teardown() {
 	s.c.Free()
@@ -564,7 +619,7 @@ func pick(r *rand.Rand, xs []int) int { return xs[r.IntN(len(xs))] }
 
 // gen picks the next event among those the implementation allows now.
 func (s *sys) gen(r *rand.Rand, maxInst int) []uint64 {
-	var gate0, user, book, relParked []int
+	var gate0, user, book, relParked, relLate []int
 	for i, a := range s.insts {
 		d := a.Data.(*idata)
 		switch {
@@ -578,7 +633,11 @@ func (s *sys) gen(r *rand.Rand, maxInst int) []uint64 {
 		}
 	}
 	for i, a := range s.rels {
-		if !a.Done() && a.Parked() {
+		switch {
+		case a.Done() || !a.Parked():
+		case a.Site() == 5:
+			relLate = append(relLate, i)
+		default:
 			relParked = append(relParked, i)
 		}
 	}
@@ -590,6 +649,17 @@ func (s *sys) gen(r *rand.Rand, maxInst int) []uint64 {
 			return uint64(1 + r.IntN(2))
 		}
 		return 0
+	}
+	// a Release call parked between its rc.mtx section and Keyed.RemoveKey (never with the unchanged code): race it
+	// against a new reference to the same key, then let it go on
+	if len(relLate) > 0 {
+		i := pick(r, relLate)
+		switch y := r.IntN(10); {
+		case y < 5 && room:
+			return []uint64{10, s.refKey(s.rels[i])}
+		case y < 8:
+			return []uint64{20, uint64(i)}
+		}
 	}
 	for tries := 0; tries < 300; tries++ {
 		x := r.IntN(100)
@@ -684,9 +754,9 @@ func (s *sys) gen(r *rand.Rand, maxInst int) []uint64 {
 
 var evNames = map[uint64]string{1: "setcontext", 2: "setkey", 3: "removekey", 4: "synckeys", 5: "getkey", 6: "reset", 7: "restart",
 	8: "resetall", 9: "restartall", 10: "addkeyref", 11: "release", 12: "releasesection", 13: "rcremovekey", 14: "proceed",
-	15: "return", 16: "bookkeep", 17: "advance", 18: "timercb", 19: "getkeys"}
+	15: "return", 16: "bookkeep", 17: "advance", 18: "timercb", 19: "getkeys", 20: "release_late_removekey"}
 
-func (s *sys) count(ev []uint64, before []keyed.KeyWithData[uint64, uint64], parkedBefore []*ctl.Actor) {
+func (s *sys) count(ev []uint64, before []keyed.KeyWithData[uint64, uint64], parkedBefore []*ctl.Actor, liveBefore map[uint64]bool) {
 	s.w.Count("ev."+evNames[ev[0]], 1)
 	inUser := map[uint64]int{}
 	blocked := 0
@@ -726,6 +796,34 @@ func (s *sys) count(ev []uint64, before []keyed.KeyWithData[uint64, uint64], par
 	case 3, 4, 13:
 		if len(parkedBefore) > 0 {
 			s.w.Count("obs.api_call_while_timer_callback_parked", 1)
+		}
+		if ev[0] == 4 {
+			distinct := map[uint64]bool{}
+			for _, k := range ev[2:] {
+				distinct[k] = true
+			}
+			dups := len(ev[2:]) - len(distinct)
+			dropped, droppedLive := 0, 0
+			for _, x := range before {
+				if !distinct[x.Key] {
+					dropped++
+					if liveBefore[x.Key] {
+						droppedLive++
+					}
+				}
+			}
+			if dups > 0 {
+				s.w.Count("obs.synckeys_with_duplicate_keys", 1)
+				if dropped > 0 {
+					s.w.Count("obs.synckeys_with_duplicates_drops_a_key", 1)
+				}
+				if dropped > 0 && dups >= dropped {
+					s.w.Count("obs.synckeys_duplicates_at_least_dropped_keys", 1)
+					if droppedLive > 0 {
+						s.w.Count("obs.synckeys_duplicates_at_least_dropped_keys_live_instance", 1)
+					}
+				}
+			}
 		}
 	case 18:
 		if len(s.keys) < len(before) {
@@ -771,11 +869,18 @@ func randomCfg(r *rand.Rand) []uint64 {
 func (s *sys) stepAndLog(ev []uint64) bool {
 	before := s.keys
 	parkedBefore := s.parkedTimers()
+	// keys with an instance inside the routine function whose context is not cancelled (statistics only)
+	liveBefore := map[uint64]bool{}
+	for _, a := range s.insts {
+		if d := a.Data.(*idata); a.InUser() != 0 && d.ctx.Err() == nil {
+			liveBefore[d.key] = true
+		}
+	}
 	obs, ok := s.exec(ev)
 	if !ok {
 		return false
 	}
-	s.count(ev, before, parkedBefore)
+	s.count(ev, before, parkedBefore, liveBefore)
 	s.w.Step(ev, obs)
 	return true
 }
